@@ -25,6 +25,7 @@ SEMANTIC = [
     ('failed to prove', 'assert'),
     ('cannot show invariant holds', 'invariant'),
     ('may panic', 'panic'),
+    ('unable to prove post-condition of closure', 'closure-ensures'),
 ]
 NONSEM = ['Resource limit (rlimit) exceeded', 'rlimit']
 
@@ -105,7 +106,17 @@ def analyse(unit, g, res):
                         ctx = o['ctx']
                 if o['o'] == 'repo' and where is None:
                     where = f"{o['file']}:{o['line']}"
-        for s in prim + [x for x in spans if not x.get('is_primary')]:
+        # inline labels (/* @label x */ behind a clause spliced into a repository line): the first one behind the span
+        for s in prim:
+            l = s['line_start']
+            if 1 <= l <= len(lines) and s['line_start'] == s['line_end']:
+                for m in G.INLINE_LABEL_RX.finditer(lines[l - 1]):
+                    if m.start() + 1 >= s.get('column_end', 0):
+                        label = m.group(1)
+                        break
+            if label:
+                break
+        for s in ([] if label else prim + [x for x in spans if not x.get('is_primary')]):
             for l in range(s['line_start'], min(s['line_end'], s['line_start'] + 12) + 1):
                 if 1 <= l <= len(lines):
                     m = G.LABEL_RX.search(lines[l - 1])
